@@ -618,6 +618,9 @@ func (r *runner) runBlock(steps []Step) {
 	} else if best.relay != "" {
 		r.v("C02", "relay-count-concurrent", "concurrent block %v: %s", kinds, best.relay)
 		r.v("C09", "block-relay-mismatch", "concurrent block %v: %s", kinds, best.relay)
+		if strings.Contains(best.relay, "CustomMessageBroadcast") {
+			r.v("C14", "recipient-extra", "concurrent block %v: %s", kinds, best.relay)
+		}
 	}
 	blk := &Outcome{Kind: "block"}
 	r.lastOut = blk
